@@ -21,6 +21,7 @@ MAX_INLINE_NODES = 400
 MAX_DEPTH = 3
 _BASE = None
 _BASE_PARAMS = None
+SUCCESSORS = {}      # replacement helper -> the small baseline function it stands in for (renamed *and* changed)
 _BASE_LOCALS = None
 
 
@@ -159,12 +160,17 @@ def rename_fns(raw):
     """A private function that was merely renamed (same impl / module, same parameter names, old name gone, exactly
     one candidate) is presented under its baseline name everywhere in the fact file."""
     baseline()
+    SUCCESSORS.clear()
     cur = {}
+    bodies_now = {}
     for fn in raw.get("hir", []):
         sp = strip_generics(fn["path"])
         if "{closure" in sp or "tests::" in sp:
             continue
         cur[sp] = [p.get("name") for p in fn.get("params", [])]
+        bodies_now[sp] = fn.get("body")
+    with open(os.path.join(VERIF, "tables", "baseline_fns.json")) as fh:
+        small = json.load(fh).get("small_bodies", {})
     exported = {strip_generics(f["path"]) for f in raw["items"]["fns"] if f.get("exported") or f.get("trait_item")}
     missing = [b for b in _BASE if b not in cur and "tests::" not in b and "<" not in b]
     new = [c for c in cur if c not in _BASE and c not in exported and "<" not in c]
@@ -175,6 +181,13 @@ def rename_fns(raw):
         if want is None:
             continue
         cands = [c for c in new if (c.rsplit("::", 1)[0] if "::" in c else "") == parent and cur[c] == want]
+        # a small function whose body also changed is not "merely renamed": its replacement is read as a helper
+        # (inlined at its call sites), so the rules see what the code now does rather than the old name
+        if b in small and len(cands) == 1:
+            import hirlib as _H
+            if _H.canon(bodies_now[cands[0]]).replace(cands[0].rsplit("::", 1)[-1], b.rsplit("::", 1)[-1]) != small[b]:
+                SUCCESSORS[cands[0]] = b       # what was audited for the old function is looked up for its replacement
+                continue
         if len(cands) == 1 and sum(1 for b2 in missing if _BASE_PARAMS.get(b2) == want and (b2.rsplit("::", 1)[0] if "::" in b2 else "") == parent) == 1:
             ren[cands[0].rsplit("::", 1)[-1]] = b.rsplit("::", 1)[-1]
     if not ren:
@@ -255,7 +268,7 @@ def reorder_params(facts):
         sp = strip_generics(path)
         want = _BASE_PARAMS.get(sp)
         have = [p.get("name") for p in fn.get("params", [])]
-        if want and have != want and sorted(have) == sorted(want) and len(set(have)) == len(have):
+        if want and None not in have and have != want and sorted(have) == sorted(want) and len(set(have)) == len(have):
             perm[path] = [have.index(n) for n in want]
     if not perm:
         return {}
@@ -566,8 +579,23 @@ class Inliner:
         if node.get("k") == "Try":
             call = unpeel(node.get("e"))
             tried = True
+            if isinstance(call, dict) and call.get("_tfe_value"):
+                return call["stmts"][0]["e"]      # (`for ..{body?}; Ok(())`)? is the loop itself
         if not isinstance(call, dict) or call.get("k") != "MethodCall" or len(call.get("args") or []) != 1:
             return None
+        if not tried and call.get("name") == "try_for_each" and str(call.get("ty", "")).startswith("std::result::Result<(),"):
+            # used as a value: `it.try_for_each(|p| body)`  ==  `{ for p in it { body?; } Ok(()) }`
+            clo = unpeel(call["args"][0])
+            if clo.get("k") != "Closure" or len(clo.get("params") or []) != 1:
+                return None
+            sp = node.get("span")
+            body = {"k": "Try", "e": clo["body"], "span": clo["body"].get("span"), "ty": "()"}
+            loop = {"k": "For", "pat": clo["params"][0], "iter": call["recv"], "span": sp, "ty": "()",
+                    "body": {"k": "Block", "stmts": [{"k": "Semi", "e": body, "span": body.get("span")}], "expr": None, "span": sp}}
+            okv = {"k": "Call", "f": {"k": "Path", "res": "Def", "dk": "Ctor(Variant, Fn)", "def": "std::prelude::v1::Ok", "adt": "std::result::Result",
+                                      "variant": "Ok", "text": "Ok", "ty": "", "span": sp},
+                   "args": [{"k": "Tup", "es": [], "ty": "()", "span": sp}], "ty": call.get("ty"), "span": sp}
+            return {"k": "Block", "stmts": [{"k": "Semi", "e": loop, "span": sp}], "expr": okv, "span": sp, "ty": call.get("ty"), "_tfe_value": True}
         if call.get("name") != ("try_for_each" if tried else "for_each"):
             return None
         clo = unpeel(call["args"][0])
